@@ -76,7 +76,12 @@ func VerifNewServer(services *service.Services, peers map[*peer.Peer]*peer.SyncS
 func (v *VerifServer) Start() error { return v.S.Start() }
 
 // Shutdown stops the server.
-func (v *VerifServer) Shutdown() error { return v.S.Shutdown() }
+func (v *VerifServer) Shutdown() error {
+	// (the registries must not keep finished servers alive)
+	verifStates.Delete(v.S)
+	connmgr.VerifForget(v.S.connManager)
+	return v.S.Shutdown()
+}
 
 // DialOut hands an established connection to the server as an outbound peer.
 func (v *VerifServer) DialOut(conn net.Conn, addr *net.TCPAddr) {
